@@ -29,7 +29,7 @@ from odml.tools.xmlparser import XMLWriter                     # noqa: E402
 from odml.tools.rdf_converter import RDFWriter                 # noqa: E402
 from odml.tools.parser_utils import ParserException            # noqa: E402
 
-WORK = os.path.join(h.WORK, 'c07')
+WORK = os.path.join(h.WORK, 'c07-%d' % os.getpid())     # per process: concurrent runs do not share files
 OLD = b'OLD'
 
 # RDF sub-formats as documented by the library (written down here, not imported).
